@@ -37,6 +37,8 @@ EXPLANATION = (
     'number -> error). Not decided: numeric formatting per fmt, what astropy\'s Angle makes of the string it is handed.')
 EXPLANATION_ADDED = (" (R3 also) image-frame lines are read through the pixel branch unconditionally with centre (x, y) = first, second entry, sizes as plain numbers and the angle as a quantity; lines are probed in both frames; the centre is printed in the frame named by coord= with default attributes (frame-level transform); a region written in another frame must have its angle corrected (known finding). (R8 also) the reader's frame keyword mapping is evaluated on CASA keywords in both letter cases; the writer's key whitelist is observed by evaluation. (R12) the document-level parser is partially evaluated on eight probe documents (global defaults and their update, comments, ann / sign prefixes, list-valued and upper-case global keys, error modes). (R13) parsed shapes become regions one each, in order.")
 EXPLANATION += EXPLANATION_ADDED
+EXPLANATION_ADDED2 = (' (R14, deep tier) grammar enumeration: every document of at most four lines over an 11-line CRTF grammar (header, global lines, comments, ann / sign prefixes, shapes with and without inline metadata, a malformed line; 16104 documents) is pushed through the partially evaluated document parser and compared with a state-machine oracle (global dictionary in force, per-shape overrides, include/annotation flags, error mode).')
+EXPLANATION += EXPLANATION_ADDED2
 TRUSTED = ['the reader\'s regexes, applied to the constant line template, return the bracketed pairs / trailing lengths in order '
            '(stdlib re on constants from the source)', 'Quantity.to(unit).value', 'frame_transform_graph.get_names() maps astropy '
            'frame names to themselves']
